@@ -44,6 +44,73 @@ pub fn run(tier: &str) -> Result<Report, String> {
             sem::sweep(&mut rep, &ctx, &fs, ck);
             // the same with labels whose NAMES look like constants / digits / quantifier symbols
             if desc == "mixed" {
+                // ... context sets that come from a bundle (zip written here, entry order explicit) holding decoy entries in
+                // sub-directories and with other suffixes next to the real ones, decoys stored before / after the real entries:
+                // label l must denote exactly the set stored as `l.bdd`
+                if b.name == "con2" {
+                    use std::io::Write;
+                    let unit = b.graph.mk_unit_colored_vertices();
+                    let small: Vec<_> = fs.iter().filter(|f| f.size() <= 3).cloned().collect();
+                    for decoys_first in [true, false] {
+                        let dir = tempfile::tempdir().map_err(|e| e.to_string())?;
+                        let path = dir.path().join("context.zip");
+                        {
+                            let file = std::fs::File::create(&path).map_err(|e| e.to_string())?;
+                            let mut zw = zip::ZipWriter::new(file);
+                            let mut labels: Vec<&String> = ctx.sets.keys().collect();
+                            labels.sort();
+                            let real: Vec<(String, String)> = labels.iter().map(|l| (format!("{l}.bdd"), ctx.sets[*l].as_bdd().to_string())).collect();
+                            let mut decoy: Vec<(String, String)> = vec![];
+                            for l in &labels {
+                                let other = unit.as_bdd().and_not(ctx.sets[*l].as_bdd()).to_string();
+                                decoy.push((format!("old/{l}.bdd"), other.clone()));
+                                decoy.push((format!("{l}.bdd.bak"), other.clone()));
+                                decoy.push((format!("{l}.txt"), "not a bdd".to_string()));
+                            }
+                            let order: Vec<&(String, String)> = if decoys_first { decoy.iter().chain(real.iter()).collect() } else { real.iter().chain(decoy.iter()).collect() };
+                            for (name, text) in order {
+                                zw.start_file(name.as_str(), zip::write::FileOptions::default()).map_err(|e| e.to_string())?;
+                                zw.write_all(text.as_bytes()).map_err(|e| e.to_string())?;
+                            }
+                            zw.finish().map_err(|e| e.to_string())?;
+                        }
+                        let how = if decoys_first { "decoy entries stored before the real ones" } else { "decoy entries stored after the real ones" };
+                        let loaded = crate::report::guarded(std::panic::AssertUnwindSafe(|| biodivine_hctl_model_checker::load_inputs::load_bdd_bundle(path.to_str().unwrap(), b.graph.symbolic_context())));
+                        match loaded {
+                            Ok(Ok(map)) => {
+                                let mut bad: Vec<String> = vec![];
+                                for (l, set) in &ctx.sets {
+                                    match map.get(l) {
+                                        Some(s) if s.as_bdd() == set.as_bdd() => {}
+                                        Some(_) => bad.push(format!("label `{l}` denotes another set than the one stored as {l}.bdd")),
+                                        None => bad.push(format!("label `{l}` missing after load_bdd_bundle")),
+                                    }
+                                }
+                                for f in &small {
+                                    let text = f.show(&ctx.user);
+                                    let expected = ctx.expected(f);
+                                    rep.evaluations += 1;
+                                    let w = match ctx.run(|| biodivine_hctl_model_checker::model_checking::model_check_extended_formula_dirty(&text, &b.graph, &map)) {
+                                        crate::sweep::Got::Set(s) => ctx.diff_dirty(&s, &expected),
+                                        crate::sweep::Got::Err(e) => Some(format!("Err: {e}")),
+                                        crate::sweep::Got::Panic(p) => Some(format!("panic: {p}")),
+                                    };
+                                    if let Some(w) = w {
+                                        if bad.len() < 6 {
+                                            bad.push(format!("`{text}` with the loaded context: {w}"));
+                                        }
+                                    }
+                                }
+                                for w in bad.into_iter().take(6) {
+                                    rep.violations.push(Violation { case: json!({"kind": "none"}), what: format!("context bundle for con2 labels=mixed ({how}): {w}"), size: 40 });
+                                }
+                            }
+                            Ok(Err(e)) => rep.violations.push(Violation { case: json!({"kind": "none"}), what: format!("context bundle for con2 labels=mixed ({how}): load_bdd_bundle fails: {e}"), size: 40 }),
+                            Err(p) => rep.violations.push(Violation { case: json!({"kind": "none"}), what: format!("context bundle for con2 labels=mixed ({how}): load_bdd_bundle panics: {p}"), size: 40 }),
+                        }
+                    }
+                    rep.add_count("context_bundle_orders", 2);
+                }
                 // ... the long spellings of the quantifiers (\\exists, \\forall, \\bind, \\jump) mean the same
                 {
                     use rayon::prelude::*;
@@ -122,7 +189,7 @@ pub fn run(tier: &str) -> Result<Report, String> {
         rep.set("wide_models", json!(big));
     }
     rep.set("slices", json!(slices));
-    rep.rule = "all closed extended formulae with at most max_nodes nodes that contain a wild-card or a domain, plus the extended template families (nested and repeated domains, the same inner domain under different outer domains, pattern and duplicate shapes inside domain scopes) and the pair family (every ordered pair of the collision alphabet joined by & / |, and nested as Q{x} in %d%: (A & @{x}: B)), x every label family (context-set assignment; the mixed family also under the label names 1, false, True / 0, true, V, under non-ASCII label names, and with every quantifier written in its long spelling \\exists / \\forall / \\bind / \\jump), through model_check_extended_formula(_dirty), compared with the explicit-state oracle on every state x valid colour (and: raw results inside the unit set, independent of spare variables); plus the operator sweep: every unary/binary operator and every quantifier form with/without domains on EVERY coloured set (and every pair of sets) of tiny networks; plus, on synthetic wide models with more than 2^53 state x colour pairs, the three README equivalences for 7 bodies x 7 domains (full, empty, all but one state, all but one (state, colour) pair, one state, ...) and the closed forms `!{x} in %d%: True` = d, `3{x} in %d%: @{x}: ~%d%` = empty, `V{x} in %d%: @{x}: %d%` = everything; distinct_nontrivial = distinct non-trivial (network, labels, verdict table)".into();
+    rep.rule = "all closed extended formulae with at most max_nodes nodes that contain a wild-card or a domain, plus the extended template families (nested and repeated domains, the same inner domain under different outer domains, pattern and duplicate shapes inside domain scopes) and the pair family (every ordered pair of the collision alphabet joined by & / |, and nested as Q{x} in %d%: (A & @{x}: B)), x every label family (context-set assignment; the mixed family also under the label names 1, false, True / 0, true, V, under non-ASCII label names, with the context sets loaded from a bundle that also holds decoy entries (sub-directory, other suffixes; stored before / after the real entries), and with every quantifier written in its long spelling \\exists / \\forall / \\bind / \\jump), through model_check_extended_formula(_dirty), compared with the explicit-state oracle on every state x valid colour (and: raw results inside the unit set, independent of spare variables); plus the operator sweep: every unary/binary operator and every quantifier form with/without domains on EVERY coloured set (and every pair of sets) of tiny networks; plus, on synthetic wide models with more than 2^53 state x colour pairs, the three README equivalences for 7 bodies x 7 domains (full, empty, all but one state, all but one (state, colour) pair, one state, ...) and the closed forms `!{x} in %d%: True` = d, `3{x} in %d%: @{x}: ~%d%` = empty, `V{x} in %d%: @{x}: %d%` = everything; distinct_nontrivial = distinct non-trivial (network, labels, verdict table)".into();
     Ok(rep)
 }
 
